@@ -37,7 +37,7 @@ CHECKS = {
     "C14": {
         "level": "exploration",
         # reference counts are the mechanism behind "removing one user leaves the others intact"
-        "classes": ["C14", "C06:string-refcount"],
+        "classes": ["C14", "C06:string-refcount", "C19:refcount-wrapped"],
         "rule": HIST_RULE + "; every plan is executed on two replicas (strings offered linked vs through copied kinds) "
                 "and every public accessor is compared after every operation",
         "budget_s": {"quick": 70, "thorough": 900},
@@ -52,7 +52,8 @@ CHECKS = {
     },
     "C19": {
         "level": "exploration",
-        "classes": ["C19", "C04"],
+        # a slot that is neither reachable nor free is a slot id lost for good: "usable again after values are removed"
+        "classes": ["C19", "C04", "C06:slot-leak"],
         "rule": HIST_RULE + "; 'free' plans are executed by every configuration of the build matrix and their observable "
                 "transcripts compared pairwise; 'limit' plans first fill the document up to the slot-id limit of the build",
         "budget_s": {"quick": 100, "thorough": 900},
@@ -344,3 +345,21 @@ CHECKS["C05"]["batches"].append(
 CHECKS["C05"]["batches"].append(
     {"family": "xfer", "mode": "limits", "cfgs": {"quick": ["A", "B"], "thorough": ["A", "B", "C", "D", "F", "I"]},
      "runs": {"quick": 60, "thorough": 600}})
+
+# "removing one user leaves the others intact" also when one string has more users than a narrow counter can count:
+# fills of 256..65538 values holding the same copied string, then a removal (the `same` flavour of the limit mode)
+CHECKS["C14"]["batches"].append(
+    {"family": "hist", "mode": "limit", "cfgs": {"quick": ["A", "I"], "thorough": ["A", "B", "D", "I"]},
+     "runs": {"quick": 40, "thorough": 1200}})
+
+# long histories with repetition (150-600 operations, blocks of 2-8 operations run 5-60 times over): what only shows
+# after accumulated state - leaks that eat the id space, counters, pool-table growth after reuse, free-list order
+CHECKS["C04"]["batches"].append(
+    {"family": "hist", "mode": "soak", "cfgs": {"quick": ["A", "B"], "thorough": ALL_CFGS},
+     "runs": {"quick": 400, "thorough": 20000}})
+CHECKS["C06"]["batches"].append(
+    {"family": "hist", "mode": "soak", "cfgs": {"quick": ["G", "D"], "thorough": ALL_CFGS},
+     "runs": {"quick": 400, "thorough": 20000}})
+CHECKS["C19"]["batches"].append(
+    {"family": "hist", "mode": "soak", "cfgs": {"quick": ["B", "J", "K"], "thorough": ["B", "C", "F", "J", "K", "I"]},
+     "runs": {"quick": 300, "thorough": 12000}})
